@@ -3,25 +3,38 @@
    callers and closers, the consumer of Events/Errors (which may never run), the kernel delivering batches; the mutex
    `mu`, the channels `done`, `doneResp`, `Events` (any capacity) and `Errors` (unbuffered).
 
-   The sequential content is abstract: the reader's input is a stream of ITEMS, one per notification, each saying what
-   handling that notification sends: errors sent before the critical section (the overflow report), then the critical
-   section of handleEvent, then the messages sent after it (a pending error, the event).  Which messages those are is
-   decided by the sequential model (Watcher.handle); nothing here depends on it.  API calls apply an abstract
-   transition [api] to an abstract state inside their critical section.
+   The sequential content is abstract.  The reader's input is a stream of raw ITEMS (type I), one per notification.
+   For each item the reader first sends [pre i] (the overflow report: a function of the item alone, sent before taking
+   the mutex), then runs the critical section of handleEvent, which applies [hnd] to the SHARED sequential state
+   [data] — the same state the API calls read and update under the same mutex — and yields the messages to send
+   after unlocking (a pending error, the event).  What is sent therefore depends on the tables at the moment of the
+   critical section.  API calls apply [api] to [data] inside their critical section.  The kernel side of [data] may
+   change at any time, mutex or not: label [LEnv k] applies the partial function [env].  ConcSystem.v instantiates
+   D, api, hnd, env with the sequential model (System.v).
 
    Two facts about the code are PARAMETERS, established by the checker of Cfg.v on the skeletons the translator
    generates from the current source: whether any channel operation happens while `mu` is held (cf_send_in_cs) and
-   whether the API functions test isClosed before anything else (cf_guard_first).  Executable; proofs in ConcProofs.v. *)
+   whether the API functions test isClosed before anything else (cf_guard_first).  Executable; proofs in ConcSafety.v / ConcLive.v. *)
 From stdpp Require Import gmap list.
 Local Open Scope nat_scope.
 
 Section Conc.
-  Context {E X D C R : Type}.            (* events, errors, sequential state, API calls, API results *)
+  Context {E X D C R I K : Type}.        (* events, errors, sequential state, API calls, API results, raw items,
+                                            environment (kernel-side) steps *)
   Variable api : D → C → D * R.          (* the sequential semantics of one API call (its critical section) *)
   Variable closed_result : C → R.        (* what an API call returns once the watcher is closed: ErrClosed / nil / nil *)
 
   Inductive msg := MEv (e : E) | MEr (x : X).
-  Record item := mkItem { it_pre : list msg; it_post : list msg }.
+
+  Variable pre : I → list msg.           (* what the reader sends for an item BEFORE taking the mutex *)
+  Variable hnd : D → I → D * list msg.   (* the reader's critical section: new data, messages to send after unlocking *)
+  Variable env : D → K → option D.       (* an environment step on the data, at any time; None = not allowed now *)
+
+  (* linearisation entries: everything that reads or writes [data], in the order it happened *)
+  Inductive linent :=
+  | LinCall (c : C) (r : R)              (* the critical section of an API call, with the result it returned *)
+  | LinHandle (i : I) (post : list msg)  (* the reader's critical section for item i, with what it decided to send *)
+  | LinEnv (k : K).                      (* an environment step *)
 
   Record cfacts := mkCf {
     cf_send_in_cs : bool;        (* true: handleEvent sends its pending error while still holding mu *)
@@ -38,12 +51,12 @@ Section Conc.
   Inductive rpc :=
   | RTop                                     (* `if w.isClosed() { return }` at the top of the loop *)
   | RRead                                    (* blocked in inotifyFile.Read *)
-  | RBatch (items : list item)               (* decode loop over one read *)
-  | RPre (ms : list msg) (it : item) (rest : list item)        (* sends before the critical section *)
-  | RWantLock (it : item) (rest : list item)                   (* handleEvent: w.mu.Lock() *)
-  | RInCs (it : item) (rest : list item)                       (* inside the critical section *)
-  | RCsSend (ms : list msg) (after : list msg) (rest : list item)   (* only if cf_send_in_cs: sending errors while holding mu *)
-  | RPost (ms : list msg) (rest : list item)                   (* sends after the critical section *)
+  | RBatch (items : list I)                  (* decode loop over one read *)
+  | RPre (ms : list msg) (it : I) (rest : list I)              (* sends before the critical section *)
+  | RWantLock (it : I) (rest : list I)                         (* handleEvent: w.mu.Lock() *)
+  | RInCs (it : I) (rest : list I)                             (* inside the critical section *)
+  | RCsSend (ms : list msg) (after : list msg) (rest : list I) (* only if cf_send_in_cs: sending errors while holding mu *)
+  | RPost (ms : list msg) (rest : list I)                      (* sends after the critical section *)
   | RExit1 | RExit2 | RExit3                 (* deferred: close(doneResp); close(Errors); close(Events) *)
   | RDead.
 
@@ -71,7 +84,9 @@ Section Conc.
     data : D;
     recvd_ev : list E;              (* what the consumer received on Events, in order *)
     recvd_er : list X;              (* … on Errors *)
-    lin : list (C * R);             (* API calls in the order of their critical sections, with their results *)
+    lin : list linent;              (* ghost: API calls, handled items and environment steps in the order they
+                                       touched [data], with the results / messages they produced *)
+    started : list I;               (* ghost: the items the reader has begun to process (entered RPre), in order *)
     panicked : bool;                (* a send on / close of a closed channel *)
   }.
 
@@ -81,22 +96,23 @@ Section Conc.
   | LThr (t : tid)                  (* thread t (0 = the reader) takes its next step *)
   | LConsumeEv                      (* the consumer receives from Events *)
   | LConsumeEr                      (* the consumer receives from Errors *)
-  | LKernel (b : list item)         (* a read of the inotify descriptor returns a batch *)
-  | LSpawn (t : tid) (p : cpc).     (* a new API call / Close call starts on thread t *)
+  | LKernel (b : list I)            (* a read of the inotify descriptor returns a batch *)
+  | LSpawn (t : tid) (p : cpc)      (* a new API call / Close call starts on thread t *)
+  | LEnv (k : K).                   (* the kernel side changes [data]; not subject to the mutex *)
 
   Definition upd_rd (s : cstate) (p : rpc) : cstate :=
     mkC (mu s) (done_closed s) (file_closed s) (resp_closed s) (ev_buf s) (ev_closed s) (er_closed s) p (thr s) (data s)
-        (recvd_ev s) (recvd_er s) (lin s) (panicked s).
+        (recvd_ev s) (recvd_er s) (lin s) (started s) (panicked s).
   Definition upd_thr (s : cstate) (t : tid) (p : cpc) : cstate :=
     mkC (mu s) (done_closed s) (file_closed s) (resp_closed s) (ev_buf s) (ev_closed s) (er_closed s) (rd s) (<[t := p]> (thr s))
-        (data s) (recvd_ev s) (recvd_er s) (lin s) (panicked s).
+        (data s) (recvd_ev s) (recvd_er s) (lin s) (started s) (panicked s).
   Definition upd_mu (s : cstate) (m : option tid) : cstate :=
     mkC m (done_closed s) (file_closed s) (resp_closed s) (ev_buf s) (ev_closed s) (er_closed s) (rd s) (thr s) (data s)
-        (recvd_ev s) (recvd_er s) (lin s) (panicked s).
+        (recvd_ev s) (recvd_er s) (lin s) (started s) (panicked s).
 
   (* where the reader goes after the message list of a phase is exhausted *)
-  Definition after_pre (it : item) (rest : list item) : rpc := RWantLock it rest.
-  Definition after_post (rest : list item) : rpc := RBatch rest.
+  Definition after_pre (it : I) (rest : list I) : rpc := RWantLock it rest.
+  Definition after_post (rest : list I) : rpc := RBatch rest.
 
   (* the reader's next step, when it is not a rendezvous with the consumer; None = blocked *)
   Definition reader_step (cap : nat) (cf : cfacts) (s : cstate) : option cstate :=
@@ -104,7 +120,9 @@ Section Conc.
     | RTop => Some (upd_rd s (if done_closed s then RExit1 else RRead))
     | RRead => if file_closed s then Some (upd_rd s RExit1) else None      (* Read fails with ErrClosed; else blocked *)
     | RBatch [] => Some (upd_rd s RTop)
-    | RBatch (it :: rest) => Some (upd_rd s (RPre (it_pre it) it rest))
+    | RBatch (it :: rest) =>
+      Some (mkC (mu s) (done_closed s) (file_closed s) (resp_closed s) (ev_buf s) (ev_closed s) (er_closed s)
+                (RPre (pre it) it rest) (thr s) (data s) (recvd_ev s) (recvd_er s) (lin s) (started s ++ [it]) (panicked s))
     | RPre [] it rest => Some (upd_rd s (after_pre it rest))
     | RPre (m :: ms) it rest =>
       (* select { case <-done: return false; case ch <- m: } — the done branch; the send branch is below / a rendezvous *)
@@ -112,15 +130,21 @@ Section Conc.
       | MEv e => if done_closed s then Some (upd_rd s RExit1)
                  else if decide (length (ev_buf s) < cap) then
                    Some (mkC (mu s) (done_closed s) (file_closed s) (resp_closed s) (ev_buf s ++ [e]) (ev_closed s) (er_closed s)
-                             (RPre ms it rest) (thr s) (data s) (recvd_ev s) (recvd_er s) (lin s) (panicked s || ev_closed s))
+                             (RPre ms it rest) (thr s) (data s) (recvd_ev s) (recvd_er s) (lin s) (started s) (panicked s || ev_closed s))
                  else None
       | MEr _ => if done_closed s then Some (upd_rd s RExit1) else None
       end
     | RWantLock it rest => match mu s with None => Some (upd_mu (upd_rd s (RInCs it rest)) (Some reader_tid)) | Some _ => None end
     | RInCs it rest =>
+      (* the critical section of handleEvent: reads and updates the shared data; what is sent afterwards is decided here *)
+      let '(d', post) := hnd (data s) it in
       if cf_send_in_cs cf
-      then Some (upd_rd s (RCsSend (err_msgs (it_post it)) (ev_msgs (it_post it)) rest))
-      else Some (upd_mu (upd_rd s (RPost (it_post it) rest)) None)          (* Unlock, then send *)
+      then Some (mkC (mu s) (done_closed s) (file_closed s) (resp_closed s) (ev_buf s) (ev_closed s) (er_closed s)
+                     (RCsSend (err_msgs post) (ev_msgs post) rest) (thr s) d' (recvd_ev s) (recvd_er s)
+                     (lin s ++ [LinHandle it post]) (started s) (panicked s))
+      else Some (mkC None (done_closed s) (file_closed s) (resp_closed s) (ev_buf s) (ev_closed s) (er_closed s)
+                     (RPost post rest) (thr s) d' (recvd_ev s) (recvd_er s)
+                     (lin s ++ [LinHandle it post]) (started s) (panicked s))     (* Unlock, then send *)
     | RCsSend [] after rest => Some (upd_mu (upd_rd s (RPost after rest)) None)
     | RCsSend (m :: ms) after rest =>
       match m with
@@ -133,16 +157,16 @@ Section Conc.
       | MEv e => if done_closed s then Some (upd_rd s RExit1)
                  else if decide (length (ev_buf s) < cap) then
                    Some (mkC (mu s) (done_closed s) (file_closed s) (resp_closed s) (ev_buf s ++ [e]) (ev_closed s) (er_closed s)
-                             (RPost ms rest) (thr s) (data s) (recvd_ev s) (recvd_er s) (lin s) (panicked s || ev_closed s))
+                             (RPost ms rest) (thr s) (data s) (recvd_ev s) (recvd_er s) (lin s) (started s) (panicked s || ev_closed s))
                  else None
       | MEr _ => if done_closed s then Some (upd_rd s RExit1) else None
       end
     | RExit1 => Some (mkC (mu s) (done_closed s) (file_closed s) true (ev_buf s) (ev_closed s) (er_closed s) RExit2 (thr s) (data s)
-                          (recvd_ev s) (recvd_er s) (lin s) (panicked s || resp_closed s))
+                          (recvd_ev s) (recvd_er s) (lin s) (started s) (panicked s || resp_closed s))
     | RExit2 => Some (mkC (mu s) (done_closed s) (file_closed s) (resp_closed s) (ev_buf s) (ev_closed s) true RExit3 (thr s) (data s)
-                          (recvd_ev s) (recvd_er s) (lin s) (panicked s || er_closed s))
+                          (recvd_ev s) (recvd_er s) (lin s) (started s) (panicked s || er_closed s))
     | RExit3 => Some (mkC (mu s) (done_closed s) (file_closed s) (resp_closed s) (ev_buf s) true (er_closed s) RDead (thr s) (data s)
-                          (recvd_ev s) (recvd_er s) (lin s) (panicked s || ev_closed s))
+                          (recvd_ev s) (recvd_er s) (lin s) (started s) (panicked s || ev_closed s))
     | RDead => None
     end.
 
@@ -159,16 +183,16 @@ Section Conc.
       | CInCs c =>
         let '(d', r) := api (data s) c in
         Some (mkC None (done_closed s) (file_closed s) (resp_closed s) (ev_buf s) (ev_closed s) (er_closed s) (rd s)
-                  (<[t := CDone r]> (thr s)) d' (recvd_ev s) (recvd_er s) (lin s ++ [(c, r)]) (panicked s))
+                  (<[t := CDone r]> (thr s)) d' (recvd_ev s) (recvd_er s) (lin s ++ [LinCall c r]) (started s) (panicked s))
       | CDone _ => None
       | KStart => match mu s with None => Some (upd_mu (upd_thr s t KInCs) (Some t)) | Some _ => None end
       | KInCs =>
         if done_closed s
         then Some (upd_mu (upd_thr s t KDone) None)                                   (* already closed: return nil *)
         else Some (mkC None true (file_closed s) (resp_closed s) (ev_buf s) (ev_closed s) (er_closed s) (rd s)
-                       (<[t := KCloseFile]> (thr s)) (data s) (recvd_ev s) (recvd_er s) (lin s) (panicked s))
+                       (<[t := KCloseFile]> (thr s)) (data s) (recvd_ev s) (recvd_er s) (lin s) (started s) (panicked s))
       | KCloseFile => Some (mkC (mu s) (done_closed s) true (resp_closed s) (ev_buf s) (ev_closed s) (er_closed s) (rd s)
-                                (<[t := KWaitResp]> (thr s)) (data s) (recvd_ev s) (recvd_er s) (lin s) (panicked s))
+                                (<[t := KWaitResp]> (thr s)) (data s) (recvd_ev s) (recvd_er s) (lin s) (started s) (panicked s))
       | KWaitResp => if resp_closed s then Some (upd_thr s t KDone) else None
       | KDone => None
       end
@@ -178,15 +202,15 @@ Section Conc.
   Definition consume_ev (s : cstate) : option cstate :=
     match ev_buf s with
     | e :: b => Some (mkC (mu s) (done_closed s) (file_closed s) (resp_closed s) b (ev_closed s) (er_closed s) (rd s) (thr s) (data s)
-                          (recvd_ev s ++ [e]) (recvd_er s) (lin s) (panicked s))
+                          (recvd_ev s ++ [e]) (recvd_er s) (lin s) (started s) (panicked s))
     | [] =>
       match rd s with
       | RPre (MEv e :: ms) it rest =>
         Some (mkC (mu s) (done_closed s) (file_closed s) (resp_closed s) [] (ev_closed s) (er_closed s) (RPre ms it rest) (thr s) (data s)
-                  (recvd_ev s ++ [e]) (recvd_er s) (lin s) (panicked s || ev_closed s))
+                  (recvd_ev s ++ [e]) (recvd_er s) (lin s) (started s) (panicked s || ev_closed s))
       | RPost (MEv e :: ms) rest =>
         Some (mkC (mu s) (done_closed s) (file_closed s) (resp_closed s) [] (ev_closed s) (er_closed s) (RPost ms rest) (thr s) (data s)
-                  (recvd_ev s ++ [e]) (recvd_er s) (lin s) (panicked s || ev_closed s))
+                  (recvd_ev s ++ [e]) (recvd_er s) (lin s) (started s) (panicked s || ev_closed s))
       | _ => None
       end
     end.
@@ -195,13 +219,13 @@ Section Conc.
     match rd s with
     | RPre (MEr x :: ms) it rest =>
       Some (mkC (mu s) (done_closed s) (file_closed s) (resp_closed s) (ev_buf s) (ev_closed s) (er_closed s) (RPre ms it rest) (thr s) (data s)
-                (recvd_ev s) (recvd_er s ++ [x]) (lin s) (panicked s || er_closed s))
+                (recvd_ev s) (recvd_er s ++ [x]) (lin s) (started s) (panicked s || er_closed s))
     | RPost (MEr x :: ms) rest =>
       Some (mkC (mu s) (done_closed s) (file_closed s) (resp_closed s) (ev_buf s) (ev_closed s) (er_closed s) (RPost ms rest) (thr s) (data s)
-                (recvd_ev s) (recvd_er s ++ [x]) (lin s) (panicked s || er_closed s))
+                (recvd_ev s) (recvd_er s ++ [x]) (lin s) (started s) (panicked s || er_closed s))
     | RCsSend (MEr x :: ms) after rest =>
       Some (mkC (mu s) (done_closed s) (file_closed s) (resp_closed s) (ev_buf s) (ev_closed s) (er_closed s) (RCsSend ms after rest) (thr s) (data s)
-                (recvd_ev s) (recvd_er s ++ [x]) (lin s) (panicked s || er_closed s))
+                (recvd_ev s) (recvd_er s ++ [x]) (lin s) (started s) (panicked s || er_closed s))
     | _ => None
     end.
 
@@ -217,9 +241,15 @@ Section Conc.
            | None, CStart _ | None, KStart => Some (upd_thr s t p)
            | _, _ => None
            end
+    | LEnv k =>
+      match env (data s) k with
+      | Some d' => Some (mkC (mu s) (done_closed s) (file_closed s) (resp_closed s) (ev_buf s) (ev_closed s) (er_closed s)
+                             (rd s) (thr s) d' (recvd_ev s) (recvd_er s) (lin s ++ [LinEnv k]) (started s) (panicked s))
+      | None => None
+      end
     end.
 
-  Definition cinit (d : D) : cstate := mkC None false false false [] false false RTop ∅ d [] [] [] false.
+  Definition cinit (d : D) : cstate := mkC None false false false [] false false RTop ∅ d [] [] [] [] false.
 
   Fixpoint crun (cap : nat) (cf : cfacts) (s : cstate) (ls : list label) : option cstate :=
     match ls with
@@ -232,10 +262,9 @@ Section Conc.
   (* everything the reader will still send for the work it has taken, in order (events only) *)
   Definition evs_of (ms : list msg) : list E := omap (λ m, match m with MEv e => Some e | _ => None end) ms.
   Definition ers_of (ms : list msg) : list X := omap (λ m, match m with MEr x => Some x | _ => None end) ms.
-  Definition item_msgs (it : item) : list msg := it_pre it ++ it_post it.
 End Conc.
 
-Arguments cinit {E X D C R} d.
-Arguments cstep {E X D C R} api closed_result cap cf s l.
-Arguments crun {E X D C R} api closed_result cap cf s ls.
-Arguments reachable {E X D C R} api closed_result cap cf d s.
+Arguments cinit {E X D C R I K} d.
+Arguments cstep {E X D C R I K} api closed_result pre hnd env cap cf s l.
+Arguments crun {E X D C R I K} api closed_result pre hnd env cap cf s ls.
+Arguments reachable {E X D C R I K} api closed_result pre hnd env cap cf d s.
